@@ -24,13 +24,19 @@ CONSTANTS Patterns,     \* sequence of index-type patterns a node object may hav
           WithDim3,     \* may the last object have axis size 3 (size mismatch cases)
           DoDump
 
-VARIABLES world,   \* [pat: id -> pattern index, copy: id -> id whose CONTENT this object has, dim: id -> 2|3]
+\* pattern tables selectable from the configs (Patterns <- PatQuick)
+PatQuick == << <<"cov">>, <<"con">>, <<"cov", "con">>, <<"con", "cov">>, <<"cov", "cov">>, <<"con", "con">>,
+               <<"free", "cov">>, <<"free", "con", "cov">> >>
+PatFull  == PatQuick \o << <<"cov", "cov", "con">>, <<"cov", "con", "con">>, <<"con", "cov", "con">>,
+               <<"free", "cov", "con">>, <<"free", "free", "cov">>, <<"free", "con">> >>
+
+VARIABLES world,   \* [pat: id -> index-type pattern, copy: id -> id whose CONTENT this object has, dim: id -> 2|3]
           nodes, unused, edges, err, hist, pc, result
 
 vars == <<world, nodes, unused, edges, err, hist, pc, result>>
 
 Ids == 1..NIds
-Pat(id) == Patterns[world.pat[id]]
+Pat(id) == world.pat[id]
 Dim(id) == world.dim[id]
 RankOf(id) == Len(Pat(id))
 AxesOfType(id, ty) == SelectSeq([i \in 1..RankOf(id) |-> i], LAMBDA i : Pat(id)[i] = ty)
@@ -47,7 +53,7 @@ Val(id, idx) == 1 + world.copy[id] * 7 + Enc(idx, 1) * (1 + world.copy[id])
 
 \* --------------------------------------------------------------------------
 Worlds ==
-  {w \in [pat : [Ids -> 1..Len(Patterns)], copy : [Ids -> Ids], dim : [Ids -> {2, 3}]] :
+  {w \in [pat : [Ids -> {Patterns[i] : i \in 1..Len(Patterns)}], copy : [Ids -> Ids], dim : [Ids -> {2, 3}]] :
       /\ \A i \in Ids : w.copy[i] <= i /\ w.copy[w.copy[i]] = w.copy[i]
                         /\ w.pat[w.copy[i]] = w.pat[i]                      \* a copy has the same type
       /\ \A i \in Ids : (w.dim[i] = 3) => (WithDim3 /\ i = NIds /\ w.copy[i] = i)
@@ -64,17 +70,16 @@ Known(ns, id) == \E i \in 1..Len(ns) : ns[i] = id
 \* add_edge(source, target)
 AddEdge(s, t) ==
   /\ pc = "build" /\ err = "none" /\ Len(hist) < MaxEdges
-  /\ LET \* first step: search both; if BOTH are found nothing is appended
-         both == Known(nodes, s) /\ Known(nodes, t)
-         \* second step (else branch of the for loop): append the ones not found, source first.
-         \* NB the code appends the target even when it is the object just appended as source.
-         n1 == IF both \/ Known(nodes, s) THEN nodes ELSE Append(nodes, s)
-         u1 == IF both \/ Known(nodes, s) THEN unused ELSE Append(unused, <<CovAxes(s), ConAxes(s)>>)
-         si == IF Known(nodes, s) THEN PosOf(nodes, s) ELSE Len(n1)
-         tKnown == Known(nodes, t)
-         n2 == IF both \/ tKnown THEN n1 ELSE Append(n1, t)
-         u2 == IF both \/ tKnown THEN u1 ELSE Append(u1, <<CovAxes(t), ConAxes(t)>>)
-         ti == IF tKnown THEN PosOf(nodes, t) ELSE Len(n2)
+  /\ LET \* first step: search both by identity; second step (else branch of the for loop): append the
+         \* ones not found, source first; a loop edge on a new object reuses the node just appended
+         \* (before geometer commit "fix: TensorDiagram added a node twice ..." it was appended twice: TLC
+         \* reported that transcription as a violation of PairingAgrees, which is how the defect was found)
+         n1 == IF Known(nodes, s) THEN nodes ELSE Append(nodes, s)
+         u1 == IF Known(nodes, s) THEN unused ELSE Append(unused, <<CovAxes(s), ConAxes(s)>>)
+         si == PosOf(n1, s)
+         n2 == IF Known(n1, t) THEN n1 ELSE Append(n1, t)
+         u2 == IF Known(n1, t) THEN u1 ELSE Append(u1, <<CovAxes(t), ConAxes(t)>>)
+         ti == PosOf(n2, t)
          fs == u2[si][1]
          ft == u2[ti][2]
      IN /\ nodes' = n2
@@ -88,29 +93,40 @@ AddEdge(s, t) ==
                    ELSE edges' = Append(edges, <<si, ti, Head(fs), Head(ft)>>) /\ UNCHANGED err
   /\ UNCHANGED <<world, pc, result>>
 
+\* add_node(x) for an object that is not yet in the diagram (a diagram without edges is a tensor product)
+AddNode(s) ==
+  /\ pc = "build" /\ err = "none" /\ Len(hist) < MaxEdges /\ ~Known(nodes, s)
+  /\ nodes' = Append(nodes, s)
+  /\ unused' = Append(unused, <<CovAxes(s), ConAxes(s)>>)
+  /\ hist' = Append(hist, <<s, 0>>)
+  /\ UNCHANGED <<world, edges, err, pc, result>>
+
 \* --------------------------------------------------------------------------
-\* Declarative denotation, computed from the history of edges only
-SrcCount(h, k, s) == Cardinality({i \in 1..(k - 1) : h[i][1] = s})
+\* Declarative denotation, computed from the history of edges only  (<<s, 0>> = add_node(s))
+IsEdge(e) == e[2] # 0
+EdgeIdx == {k \in 1..Len(hist) : IsEdge(hist[k])}
+SrcCount(h, k, s) == Cardinality({i \in 1..(k - 1) : IsEdge(h[i]) /\ h[i][1] = s})
 TgtCount(h, k, t) == Cardinality({i \in 1..(k - 1) : h[i][2] = t})
 \* the objects of the diagram in order of first appearance
 RECURSIVE Appear(_, _, _)
 Appear(h, k, acc) ==
   IF k > Len(h) THEN acc
   ELSE LET a1 == IF Known(acc, h[k][1]) THEN acc ELSE Append(acc, h[k][1])
-           a2 == IF Known(a1, h[k][2]) THEN a1 ELSE Append(a1, h[k][2])
+           a2 == IF ~IsEdge(h[k]) \/ Known(a1, h[k][2]) THEN a1 ELSE Append(a1, h[k][2])
        IN Appear(h, k + 1, a2)
 DeclNodes == Appear(hist, 1, <<>>)
 \* edge k pairs <<object, axis>> with <<object, axis>>   (defined when no error)
 DeclPair(k) == LET s == hist[k][1] t == hist[k][2] IN
    << <<s, CovAxes(s)[SrcCount(hist, k, s) + 1]>>, <<t, ConAxes(t)[TgtCount(hist, k, t) + 1]>> >>
 DeclErrAt(k) == LET s == hist[k][1] t == hist[k][2] IN
+   IF ~IsEdge(hist[k]) THEN "none" ELSE
    IF SrcCount(hist, k, s) + 1 > Len(CovAxes(s)) \/ TgtCount(hist, k, t) + 1 > Len(ConAxes(t)) THEN "no-index-left"
    ELSE IF AxisSize(s, CovAxes(s)[SrcCount(hist, k, s) + 1]) # AxisSize(t, ConAxes(t)[TgtCount(hist, k, t) + 1])
         THEN "size-mismatch" ELSE "none"
 
 \* labels: every <<object, axis>> slot gets a label; contracted slots share one; aligned free slots share one
 Slots(ns) == UNION {{<<ns[i], a>> : a \in 1..RankOf(ns[i])} : i \in 1..Len(ns)}
-UsedSlots == UNION {{DeclPair(k)[1], DeclPair(k)[2]} : k \in 1..Len(hist)}
+UsedSlots == UNION {{DeclPair(k)[1], DeclPair(k)[2]} : k \in EdgeIdx}
 MaxFree(ns) == IF ns = <<>> THEN 0 ELSE
                CHOOSE m \in 0..3 : (\A i \in 1..Len(ns) : Len(FreeAxes(ns[i])) <= m) /\ (\E i \in 1..Len(ns) : Len(FreeAxes(ns[i])) = m)
 \* result axes: collection axes (right aligned), then unused covariant slots in node order, then contravariant
@@ -129,8 +145,8 @@ NodeIndex(ns, id, fi, xi, ci) ==
   [a \in 1..RankOf(id) |->
      IF Pat(id)[a] = "free"
      THEN LET nf == Len(FreeAxes(id)) IN fi[MaxFree(ns) - nf + a]        \* free axes are leading: a-th free axis
-     ELSE IF \E k \in 1..Len(hist) : <<id, a>> \in {DeclPair(k)[1], DeclPair(k)[2]}
-          THEN ci[CHOOSE k \in 1..Len(hist) : <<id, a>> \in {DeclPair(k)[1], DeclPair(k)[2]}]
+     ELSE IF \E k \in EdgeIdx : <<id, a>> \in {DeclPair(k)[1], DeclPair(k)[2]}
+          THEN ci[CHOOSE k \in EdgeIdx : <<id, a>> \in {DeclPair(k)[1], DeclPair(k)[2]}]
           ELSE LET outs == ResultCov(ns) \o ResultCon(ns)
                IN xi[CHOOSE j \in 1..Len(outs) : outs[j] = <<id, a>>]]
 RECURSIVE ProdNodes(_, _, _, _, _)
@@ -138,26 +154,30 @@ ProdNodes(ns, i, fi, xi, ci) ==
   IF i > Len(ns) THEN 1 ELSE Val(ns[i], NodeIndex(ns, ns[i], fi, xi, ci)) * ProdNodes(ns, i + 1, fi, xi, ci)
 EdgeDim(k) == AxisSize(DeclPair(k)[1][1], DeclPair(k)[1][2])
 Einstein(ns, fi, xi) ==
-  LET CI == {ci \in [1..Len(hist) -> 1..3] : \A k \in 1..Len(hist) : ci[k] <= EdgeDim(k)}
-  IN FoldSet(LAMBDA ci, acc : acc + ProdNodes(ns, 1, fi, xi, ci), 0, CI)
+  LET CIdx == {ci \in [1..Len(hist) -> 1..3] : \A k \in 1..Len(hist) : ci[k] <= (IF k \in EdgeIdx THEN EdgeDim(k) ELSE 1)}
+  IN FoldSet(LAMBDA ci, acc : acc + ProdNodes(ns, 1, fi, xi, ci), 0, CIdx)
 
 OutDims(ns) == LET outs == ResultCov(ns) \o ResultCon(ns) IN [j \in 1..Len(outs) |-> AxisSize(outs[j][1], outs[j][2])]
 \* all index tuples in row-major order as a sequence
 IdxSeq(dims) == SetToSortSeq({x \in [1..Len(dims) -> 1..3] : \A j \in 1..Len(dims) : x[j] <= dims[j]},
                              LAMBDA x, y : \E j \in 1..Len(dims) : (\A m \in 1..(j - 1) : x[m] = y[m]) /\ x[j] < y[j])
 
+\* the value calculate() returns in the current state (a query: the diagram itself does not change)
+CalcResult ==
+  LET ns == DeclNodes
+      mf == MaxFree(ns)
+      fdims == [j \in 1..mf |-> 2]
+      odims == OutDims(ns)
+      fseq == IdxSeq(fdims)
+      oseq == IdxSeq(odims)
+  IN [t |-> "value",
+      shape |-> fdims \o odims,
+      nfree |-> mf, ncov |-> Len(ResultCov(ns)), ncon |-> Len(ResultCon(ns)),
+      flat |-> CatSeqs([a \in 1..Len(fseq) |-> [b \in 1..Len(oseq) |-> Einstein(ns, fseq[a], oseq[b])]], 1)]
+
 Calculate ==
   /\ pc = "build" /\ err = "none" /\ hist # <<>>
-  /\ LET ns == DeclNodes
-         mf == MaxFree(ns)
-         fdims == [j \in 1..mf |-> 2]
-         odims == OutDims(ns)
-         fseq == IdxSeq(fdims)
-         oseq == IdxSeq(odims)
-     IN result' = [t |-> "value",
-                   shape |-> fdims \o odims,
-                   nfree |-> mf, ncov |-> Len(ResultCov(ns)), ncon |-> Len(ResultCon(ns)),
-                   flat |-> CatSeqs([a \in 1..Len(fseq) |-> [b \in 1..Len(oseq) |-> Einstein(ns, fseq[a], oseq[b])]], 1)]
+  /\ result' = CalcResult
   /\ pc' = "done"
   /\ UNCHANGED <<world, nodes, unused, edges, err, hist>>
 
@@ -166,7 +186,7 @@ Fail ==   \* an errored history is complete as it is
   /\ pc' = "done" /\ result' = [t |-> "error", err |-> err, at |-> Len(hist)]
   /\ UNCHANGED <<world, nodes, unused, edges, err, hist>>
 
-Next == (\E s \in Ids, t \in Ids : AddEdge(s, t)) \/ Calculate \/ Fail
+Next == (\E s \in Ids, t \in Ids : AddEdge(s, t)) \/ (\E s \in Ids : AddNode(s)) \/ Calculate \/ Fail
 Spec == Init /\ [][Next]_vars
 
 \* --------------------------------------------------------------------------
@@ -187,12 +207,14 @@ ErrAgrees == hist # <<>> =>
 \* declarative layer pairs.  (This is the invariant that a duplicated node entry violates.)
 PairingAgrees == (err = "none") =>
     /\ nodes = DeclNodes
-    /\ Len(edges) = Len(hist)
-    /\ \A k \in 1..Len(edges) :
-         DeclPair(k) = << <<nodes[edges[k][1]], edges[k][3]>>, <<nodes[edges[k][2]], edges[k][4]>> >>
+    /\ Len(edges) = Cardinality(EdgeIdx)
+    /\ \A k \in EdgeIdx :
+         LET e == edges[Cardinality({j \in EdgeIdx : j <= k})] IN
+         DeclPair(k) = << <<nodes[e[1]], e[3]>>, <<nodes[e[2]], e[4]>> >>
 
 Stratum ==
   IF result.t = "error" THEN result.err
+  ELSE IF EdgeIdx = {} THEN "tensor-product"
   ELSE IF \E k \in 1..Len(hist) : hist[k][1] = hist[k][2] THEN "self-edge"
   ELSE IF \E k1, k2 \in 1..Len(hist) : k1 < k2 /\ hist[k1] = hist[k2] THEN "repeated-edge"
   ELSE IF \E i \in Ids : world.copy[i] # i /\ Known(DeclNodes, i) /\ Known(DeclNodes, world.copy[i]) THEN "value-equal-copies"
